@@ -140,6 +140,23 @@ def jit_family(case, ctx):
       x0 = jnp.asarray(1.0, jnp.float32)
       M.run_program(oob, argsA, x0)
       M.run_program(oob, argsB, x0)
+  # one more call after the metadata of every reachable Variable was edited
+  # in place (same objects, same shapes): the function must see the new values
+  _, vsA = M.reachable(argsA)
+  _, vsB = M.reachable(argsB)
+  if vsA and len(vsA) == len(vsB):
+    for v in vsA + vsB:
+      v.gain = 3.0
+    x = jnp.asarray(1.0, jnp.float32)
+    beforeA, beforeB = M.numbering(argsA), M.numbering(argsB)
+    yA, outA = f_eager(*argsA, x)
+    with sut(f'{tr} call after in-place metadata edit'):
+      yB, outB = tf(*argsB, x)
+    require(np.allclose(np.asarray(yA), np.asarray(yB), rtol=1e-6, atol=1e-6),
+            lambda: f'call after editing Variable metadata in place: {tr} '
+            f'returned {np.asarray(yB)}, eager {np.asarray(yA)}')
+    compare_after(list(argsA) + list(outA), list(argsB) + list(outB),
+                  beforeA, beforeB, f'{tr} call after metadata edit')
   alias = len(arg_idx) == 2 and (arg_idx[0] % len(nodesA)) == (
       arg_idx[1] % len(nodesA))
   ctx.note(labels=[tr, f'calls{len(calls)}',
@@ -157,11 +174,11 @@ def flow_case():
       st.lists(M.program_strategy(structural=False, max_size=4), min_size=3,
                max_size=3),
       st.sampled_from(['cond', 'switch', 'while_loop', 'fori_loop',
-                       'cached_partial']),
+                       'cached_partial', 'cached_partial', 'cached_partial']),
       st.integers(0, 3), st.integers(-2, 2))
 
 
-@clause('control_flow', strategy=flow_case, quick=450, thorough=10000,
+@clause('control_flow', strategy=flow_case, quick=650, thorough=10000,
         quick_shards=13, thorough_shards=16, shrink=False,
         rule='random graphs x value-update programs under nnx.cond (both '
         'predicates), nnx.switch (index 0-2), nnx.while_loop / nnx.fori_loop '
@@ -301,3 +318,118 @@ def known_probes(case, ctx):
     control_flow(case, ctx)
   except Violation as v:
     raise Violation(str(v), key='C04:cached_partial-same-node-twice') from None
+
+
+# ----------------------------------------------------------------------------
+# two threads, each transforming calls on its OWN objects, overlapping in time
+# (the harness owns the schedule through events inside the function bodies)
+import threading as _threading
+
+
+class _TCounter(nnx.Module):
+  def __init__(self, start):
+    self.count = nnx.Variable(jnp.asarray(start, jnp.float32))
+    self.total = nnx.Variable(jnp.zeros((), jnp.float32))
+
+
+@clause('two_threads',
+        strategy=lambda: st.fixed_dictionaries({
+            'transform': st.sampled_from(['jit', 'remat', 'jit_shared']),
+            'calls': st.integers(1, 2),
+            'na': st.integers(1, 3), 'nb': st.integers(4, 6),
+            'start': st.integers(0, 50)}),
+        quick=24, thorough=400, quick_shards=4, thorough_shards=8,
+        shrink=False,
+        rule='two threads call a transformed function (nnx.jit / nnx.remat, '
+        'one function per thread or one shared jitted function with inputs '
+        'of different shape) on their own, unrelated objects with the calls '
+        'overlapping (B enters its body while A is inside its body, A '
+        'returns while B is still inside): afterwards each caller\'s object '
+        'holds what the eager run leaves, also for a further sequential '
+        'call; non-trivial = always')
+def two_threads(case, ctx):
+  T = 120.0
+  a_in, b_in, a_done = (_threading.Event(), _threading.Event(),
+                        _threading.Event())
+  sync = {'on': True}
+
+  def hook():
+    if not sync['on']:
+      return
+    me = _threading.current_thread().name
+    if me == 'verif-A':
+      a_in.set()
+      if not b_in.wait(T):
+        raise RuntimeError('harness: B never reached its body')
+    elif me == 'verif-B':
+      b_in.set()
+      if not a_done.wait(T):
+        raise RuntimeError('harness: A never finished')
+
+  def make_step():
+    def step(m, x):
+      hook()
+      m.count.value = m.count.value + 1.0
+      m.total.value = m.total.value + jnp.sum(x)
+      return m.count.value * 10.0 + jnp.sum(x)
+    return step
+
+  tr = case['transform']
+  if tr == 'jit_shared':
+    f = nnx.jit(make_step())
+    steps = {'A': f, 'B': f}
+  elif tr == 'jit':
+    steps = {'A': nnx.jit(make_step()), 'B': nnx.jit(make_step())}
+  else:
+    steps = {'A': nnx.remat(make_step()), 'B': nnx.remat(make_step())}
+  objs = {'A': _TCounter(case['start']), 'B': _TCounter(case['start'] + 100)}
+  xs = {'A': jnp.arange(case['na'], dtype=jnp.float32),
+        'B': jnp.arange(case['nb'], dtype=jnp.float32) + 1.0}
+  box = {}
+
+  def work(who):
+    try:
+      if who == 'B' and not a_in.wait(T):
+        raise RuntimeError('harness: A never reached its body')
+      box[who] = ('ok', steps[who](objs[who], xs[who]))
+    except BaseException as e:  # noqa
+      box[who] = ('err', e)
+    finally:
+      if who == 'A':
+        a_done.set()
+
+  ths = [_threading.Thread(target=work, args=(w,), name=f'verif-{w}',
+                           daemon=True) for w in 'AB']
+  for t in ths:
+    t.start()
+  for t in ths:
+    t.join(3 * T)
+  a_done.set(); b_in.set(); a_in.set()
+  for w in 'AB':
+    if w not in box:
+      raise RuntimeError('harness: schedule did not complete')
+    if box[w][0] == 'err':
+      e = box[w][1]
+      if isinstance(e, RuntimeError) and str(e).startswith('harness:'):
+        raise e
+      raise Violation(f'{tr}: thread {w} raised {type(e).__name__}: '
+                      f'{str(e)[:200]}')
+  sync['on'] = False
+  ncalls = 1
+  for _ in range(case['calls'] - 1):
+    for w in 'AB':
+      with sut('sequential call afterwards'):
+        box[w] = ('ok', steps[w](objs[w], xs[w]))
+    ncalls += 1
+  for w, start in (('A', case['start']), ('B', case['start'] + 100)):
+    exp_count = start + ncalls
+    exp_total = ncalls * float(np.sum(np.asarray(xs[w])))
+    got = (float(objs[w].count.value), float(objs[w].total.value))
+    require(np.allclose(got, (exp_count, exp_total)), lambda: f'{tr}: the '
+            f'object passed in by thread {w} has (count, total) = {got} after '
+            f'{ncalls} call(s), eager gives {(exp_count, exp_total)}: the '
+            'caller\'s own object did not receive the updates')
+    y = float(box[w][1])
+    require(np.isclose(y, exp_count * 10.0 + float(np.sum(np.asarray(xs[w])))),
+            lambda: f'{tr}: thread {w} returned {y}')
+  ctx.note(labels=[tr, f'calls{ncalls}'], nontrivial=True)
